@@ -154,6 +154,12 @@ func c17(p *core.Program, r *core.Report) {
 						continue
 					}
 				}
+				// the other three: only a write whose destination is (handed down from) one of the per-call
+				// record's result slots is the artefact; any other write in the same function is a write
+				if core.FuncName(w.Event.Fn) != "xy/lineintersector.intersectionWithNormalization" && !writesResultSlot(p, w.Event.Instr) {
+					bad = append(bad, w)
+					continue
+				}
 				nExc++
 				continue
 			}
